@@ -24,8 +24,8 @@ def EndsClean (ws suffix : List Char) : Prop :=
   | [] => ws = []
   | _ :: _ => lastIs isSpaceA suffix = false
 
-theorem plainGo_ok : ∀ (suffix : List Char) (prev : Char) (acc ws tail : List Char),
-    innerBlock prev suffix = false → (∀ c ∈ suffix, okChar c = true) → (ws ≠ [] → isWsA prev = true) →
+theorem plainGo_ok (au : Bool) : ∀ (suffix : List Char) (prev : Char) (acc ws tail : List Char),
+    innerBlock prev suffix = false → (∀ c ∈ suffix, okChar au c = true) → (ws ≠ [] → isWsA prev = true) →
     EndsClean ws suffix → TailOK tail → plainGo acc ws (suffix ++ tail) = (acc ++ ws ++ suffix, tail) := by
   intro suffix
   induction suffix with
@@ -40,8 +40,8 @@ theorem plainGo_ok : ∀ (suffix : List Char) (prev : Char) (acc ws tail : List 
     intro prev acc ws tail hin hok hws hend ht
     simp only [innerBlock, Bool.or_eq_false_iff] at hin
     obtain ⟨⟨hA, hB⟩, hC⟩ := hin
-    obtain ⟨h9, h13, h10, h133, h8232, h8233, h0⟩ := okChar_facts c (hok c List.mem_cons_self)
-    have hok' : ∀ x ∈ rest, okChar x = true := fun x hx => hok x (List.mem_cons_of_mem _ hx)
+    obtain ⟨h9, h13, h10, h133, h8232, h8233, h0⟩ := okChar_facts au c (hok c List.mem_cons_self)
+    have hok' : ∀ x ∈ rest, okChar au x = true := fun x hx => hok x (List.mem_cons_of_mem _ hx)
     by_cases hsp : c.toNat = 32
     · have hblank : isBlank c = true := by simp [isBlank, hsp]
       have hwsc : isWsA c = true := by simp [isWsA, hsp]
@@ -89,32 +89,32 @@ theorem any_false_mem {p : Char → Bool} {s : List Char} (h : s.any p = false) 
     rw [h] at this; cases this
 
 /-- single-line strings without special characters consist of `okChar`s -/
-theorem okChars_of (s : List Char) (hsp : hasSpecial true s = false) (hml : isMultiline s = false) :
-    ∀ c ∈ s, okChar c = true := by
+theorem okChars_of (au : Bool) (s : List Char) (hsp : hasSpecial au s = false) (hml : isMultiline s = false) :
+    ∀ c ∈ s, okChar au c = true := by
   intro c hc
   have h1 := any_false_mem hsp c hc
   have h2 := any_false_mem hml c hc
   simp [okChar, h1, h2]
 
 /-- what `allow_block_plain` gives for a non-empty string -/
-theorem plain_facts (c : Char) (rest : List Char) (hp : allowBlockPlain true (c :: rest) = true) :
-    isSpaceA c = false ∧ lastIs isSpaceA (c :: rest) = false ∧ hasSpecial true (c :: rest) = false ∧
+theorem plain_facts (au : Bool) (c : Char) (rest : List Char) (hp : allowBlockPlain au (c :: rest) = true) :
+    isSpaceA c = false ∧ lastIs isSpaceA (c :: rest) = false ∧ hasSpecial au (c :: rest) = false ∧
     isMultiline (c :: rest) = false ∧ blockInd (c :: rest) = false := by
   simp only [allowBlockPlain, firstIs, Bool.and_eq_true, Bool.not_eq_true', Bool.or_eq_false_iff] at hp
   obtain ⟨⟨⟨⟨⟨⟨⟨h1, _⟩, h2⟩, _⟩, _⟩, ⟨_, h3⟩⟩, h4⟩, h5⟩ := hp
   exact ⟨h1, h2, h3, h4, h5⟩
 
 /-- a text that `analyze_scalar` allows as a block plain scalar is fetched as a plain scalar and scanned verbatim -/
-theorem plain_roundtrip (s tail : List Char) (hne : s ≠ []) (hp : allowBlockPlain true s = true) (ht : TailOK tail) :
+theorem plain_roundtrip (au : Bool) (s tail : List Char) (hne : s ≠ []) (hp : allowBlockPlain au s = true) (ht : TailOK tail) :
     plainStartOK (s ++ tail) = true ∧ plainGo [] [] (s ++ tail) = (s, tail) := by
   cases s with
   | nil => exact absurd rfl hne
   | cons c rest =>
-    obtain ⟨hfs, hls, hspec, hml, hbi⟩ := plain_facts c rest hp
-    have hok := okChars_of (c :: rest) hspec hml
+    obtain ⟨hfs, hls, hspec, hml, hbi⟩ := plain_facts au c rest hp
+    have hok := okChars_of au (c :: rest) hspec hml
     simp only [blockInd, Bool.or_eq_false_iff] at hbi
     obtain ⟨⟨⟨⟨_, hfi⟩, hqc⟩, hdash⟩, hinner⟩ := hbi
-    obtain ⟨h9, h13, h10, h133, h8232, h8233, h0⟩ := okChar_facts c (hok c List.mem_cons_self)
+    obtain ⟨h9, h13, h10, h133, h8232, h8233, h0⟩ := okChar_facts au c (hok c List.mem_cons_self)
     have h32 : c.toNat ≠ 32 := by simpa [isSpaceA] using hfs
     have hcolon0 : (decide (c.toNat = 58) && followedWs rest) = false := by
       by_cases h : c.toNat = 58
@@ -147,7 +147,7 @@ theorem plain_roundtrip (s tail : List Char) (hne : s ≠ []) (hp : allowBlockPl
         have : isWsA 'a' = false := by decide
         simp only [innerBlock, hcolon0, this, hinner]
         simp
-      have := plainGo_ok (c :: rest) 'a' [] [] tail hin hok (fun h => absurd rfl h) (by simpa [EndsClean] using hls) ht
+      have := plainGo_ok au (c :: rest) 'a' [] [] tail hin hok (fun h => absurd rfl h) (by simpa [EndsClean] using hls) ht
       simpa using this
 
 end Jap.Scalar
